@@ -285,10 +285,19 @@ class AdjointSubs(_Adj):
                 r.ren = dict(ren)
                 return r
 
+        class Renamable(X):
+            def __call__(self_, **ren):
+                return ("renamed", self_, tuple(sorted(ren.items())))
+
+        class VariableT(Renamable):
+            def __init__(self_, label, names):
+                X.__init__(self_, label, names)
+                self_.name = names[0]
+
         arg = Arg("arg", ["a", "b", "c"])
-        values = [X("value_%s" % k, list(v.split(":")[1])) for k, v in zip(keys, vs)]
+        values = [(VariableT if v.startswith("var:") else Renamable)("value_%s" % k, list(v.split(":")[1])) for k, v in zip(keys, vs)]
         subs = tuple(zip(keys, values))
-        out_adj = X("out_adj", list(out))
+        out_adj = Renamable("out_adj", list(out))
         made = []
 
         class ScatterT:
@@ -299,7 +308,7 @@ class AdjointSubs(_Adj):
             def __call__(self_, **ren):
                 return ("renamed-back", self_, tuple(sorted(ren.items())))
 
-        ns = dict(NS, interpreter=Interp, Scatter=ScatterT, tuple=tuple)
+        ns = dict(NS, interpreter=Interp, Scatter=ScatterT, tuple=tuple, Variable=VariableT, all=core.sall, isinstance=isinstance)
         return Ctx(args=(SUM, PROD, out_adj, arg, subs), namespace=ns, arg=arg, subs=subs, out_adj=out_adj, made=made, keys=keys, st=st)
 
     def ensures(self, ctx, result):
